@@ -681,8 +681,12 @@ class IRContext:
         if (
             not self.builder.enable_double_precision
             and np.issubdtype(aval_dtype, np.floating)
-            and aval_dtype != np.dtype(self._default_float_dtype)
+            and np.dtype(aval_dtype).itemsize
+            > np.dtype(self._default_float_dtype).itemsize
         ):
+            # Single-precision mode narrows float64 to the default float. Narrower
+            # floats (float16) keep their dtype: the operators really produce
+            # them, and declaring float32 makes the model fail to load.
             aval_dtype = np.dtype(self._default_float_dtype)
         promote_flag = self.builder.enable_double_precision
         if (
